@@ -340,6 +340,8 @@ def obligations(tier):
       cases.append(dict(npre=2, op=op, kinds=['all', 'p']))
     cases.append(dict(npre=2, op='delete', kinds=['p']))
     cases.append(dict(npre=2, op='sweep', kinds=['p']))          # two entries can expire in the same sweep
+    # an exact-match entry (it ranks first whatever its priority number) next to a wildcarded one, then a strict command aimed at either
+    for op in ('add', 'delete_strict'): cases.append(dict(npre=2, op=op, kinds=['x', 'p']))
   if thorough:
     for op in ops:
       if op == 'badcmd': continue
